@@ -90,6 +90,8 @@ pub fn enumerate(p: &Plan, f: &mut dyn FnMut(u64, &'static str, &[u8])) -> u64 {
     base += spaces::space_b(p.b_tokens, &mut |i, c| f(b0 + i, "B", c));
     let s0 = base;
     base += spaces::space_s(p.s_k.min(2), 0, &mut |i, c| f(s0 + i, "S", c));
+    let sp = base;
+    base += spaces::space_sp(&mut |i, c| f(sp + i, "S", c));
     if p.s_k >= 3 {
         // three-statement bodies: the largest sub-space; run at the extreme widths with a shallower input tree
         let s3 = base;
@@ -312,7 +314,8 @@ pub fn info(tier: Tier, prop: &'static str, backend: Backend) -> CheckInfo {
             "Bounded exhaustive enumeration, no sampling. Program spaces: R (every program that ever exposed a defect), A (every \
              balanced string over +-<>.,[] of length <= {}), B (every sequence of <= {} idiom tokens), S (statement language over three \
              variables: x+=1, x-=1, x=0, out, in, x+=y destructive/preserving, x=y, x+=2y, x+=3y, x-=y, x+=y*z, x+=y*y; every body of \
-             <= {} statements inside 4 loop shapes, 3 initialisations){}, W (k-cell rotations with per-cell forms copy/x2/x3/negate/ \
+             <= {} statements inside 4 loop shapes, 3 initialisations; also every loop around <= 1 statement followed by one statement \
+             after the loop){}, W (k-cell rotations with per-cell forms copy/x2/x3/negate/ \
              shared/shared+const/+const/div3/product/wide constant: default, every single deviation, uniform and alternating \
              assignments{}), V (an input byte shifted left by 4k bits, k up to 16, used as loop/branch condition; optimising \
              configurations only, accelerated reference), N (a loop whose body is every sequence of <= {} tokens from moves, scans \
